@@ -98,21 +98,35 @@ def fmt(kinds):
 
 
 def check_temp_seed(tree, path):
+    """temp_seed is pinned as text (a generator with try / finally is outside the symbolic executor), up to the names of
+    its locals and its docstring."""
+    from . import symex as X
+
     fn = pg.find_def(tree, "temp_seed", path)
-    want = "state = rng.get_state()\nrng.seed(seed)\ntry:\n    yield\nfinally:\n    rng.set_state(state)"
-    got = "\n".join(ast.unparse(s) for s in pg.strip_doc(fn.body))
-    if got != want:
+    want = "v0 = rng.get_state()\nrng.seed(seed)\ntry:\n    yield\nfinally:\n    rng.set_state(v0)"
+    if X.alpha_source(fn) != want:
         raise Untranslatable("temp_seed is not save / seed / try-yield / finally-restore", fn.lineno, path)
 
 
+INTEGERIZE_SEED = """if isinstance(seed, int):
+  return seed
+else:
+  if (seed is None):
+    return np.random.RandomState(#id=1).randint(0, 1000000.0)
+  else:
+    if isinstance(seed, (tuple, list)):
+      do with(temp_seed(np.random.RandomState(#id=1), seed))
+      return np.random.RandomState(#id=1).randint(0, 1000000.0)
+    else:
+      raise ValueError"""
+
+
 def check_integerize_seed(tree, path):
-    fn = pg.find_def(tree, "integerize_seed", path)
-    got = [ast.unparse(s) for s in pg.strip_doc(fn.body)]
-    want = [
-        "if isinstance(seed, int):\n    return seed",
-        "rng = np.random.RandomState()",
-        "if seed is None:\n    return rng.randint(0, 1000000.0)",
-        "if isinstance(seed, (tuple, list)):\n    with temp_seed(rng, seed):\n        return rng.randint(0, 1000000.0)",
-    ]
-    if got[:4] != want or not got[4].startswith("raise ValueError"):
-        raise Untranslatable("integerize_seed: body outside subset", fn.lineno, path)
+    """What integerize_seed does, as the canonical text of its symbolically executed outcome tree: an int is returned as it
+    is; otherwise one *private* RandomState (the `#id` tags tell objects apart) is drawn from, unseeded for None, seeded by the tuple / list inside temp_seed."""
+    from . import symex as X
+
+    t, _n = X.run_function(tree, path, "integerize_seed", opaque={"temp_seed"}, fresh={"RandomState"})
+    got = X.render(t)
+    if got != INTEGERIZE_SEED:
+        raise Untranslatable("integerize_seed: not (int -> itself | None -> unseeded private draw | tuple/list -> private draw seeded inside temp_seed | else ValueError):\n%s" % got, None, path)
